@@ -1172,6 +1172,26 @@ func init() {
 		if histCalls++; histCalls%256 == 0 {
 			runtime.GC()
 		}
+		if histCalls%2 == 0 {
+			// every other request runs on a single processor and is followed by a look into the compressor
+			// and decompressor pools: an object that was put back twice comes out twice
+			defer runtime.GOMAXPROCS(runtime.GOMAXPROCS(1))
+			used := executors["e2e"]([]string{a[0]})
+			if raw, err := hex.DecodeString(a[0]); err == nil {
+				sc := &Scenario{}
+				if json.Unmarshal(raw, sc) == nil {
+					transcoderMu.Lock()
+					t, err := buildTranscoder(sc, false)
+					transcoderMu.Unlock()
+					if err == nil {
+						if d := t.VerifPoolDuplicates(48); len(d) > 0 {
+							used += " poolviol=" + strings.Join(d, ",")
+						}
+					}
+				}
+			}
+			return used + " ## " + executors["e2e_fresh"]([]string{a[0]})
+		}
 		return executors["e2e"]([]string{a[0]}) + " ## " + executors["e2e_fresh"]([]string{a[0]})
 	}
 	streams["limits"] = func(e *Emitter, rng *rand.Rand, tier string) {
